@@ -5,7 +5,8 @@ package main
 // Oracle (specification side, independent of the Lean model): the property's own finite family
 // (family.go) is run on the REAL drc.Main / doapprove.Main in-process in worker processes and on
 // the real missing-approve binary: a Go panic, a dead worker, an exit status outside {0,1}, a
-// rejection without any message, or a hang (per-case timeout) is a failure.
+// rejection without any message, a rejection whose message does not name the offending input
+// (naming.go), or a hang (per-case timeout) is a failure.
 // Tie (corr.go): the Lean models of the token-cursor functions are compared with the real
 // functions (verif-tagged exports) on enumerated and random token lists: result or panic must agree.
 
